@@ -12,7 +12,7 @@ TEXT = {
  "C06": ("Lean theorems: after the skip store every continuation delivers nothing (known size); wrapper: skip sets completed, afterwards starting pulls receive nothing; safety invariants hold in histories with skips.", "§7 C06"),
  "C07": ("Lean theorems: mutual exclusion of the critical section and of next() for all fused scripts (panics included), programs with skips, schedules; calls happen in position order. Happens-before: Lean theorem hb_chain (vector-clock ghost state over SC interleavings, C11 release/acquire through `yielded`) instantiated with the orderings extracted from the current source on every run; partial: SC interleavings only (stale-read executions are not modelled), synchronisation through `reserved`/`completed` ignored (conservative).", "§7 C07"),
  "C08": ("Lean theorems: consumed ∪ dropped-by-chunk = handed out; handed out ∪ dropped-by-Drop = 0..len exactly once for every program and schedule (no skip/get/wrap); open findings D5, D12 as kernel-checked witnesses.", "§7 C08"),
- "C09": ("Lean theorems: known-size wait-freedom (a called op completes with its next own step in every configuration; steps never touch other threads); wrapper: the ticket holder enters without waiting. Fair termination of the wrapper is checked on traces only (stuck detector), not yet proved.", "§7 C09"),
+ "C09": ("Lean theorems: known-size wait-freedom (a called op completes with its next own step in every configuration; steps never touch other threads); wrapper: deadlock freedom in every reachable configuration (panics and skips included): some working thread is never waiting, spin iterations are harmless; the ticket holder enters without waiting. The last step to termination under weak fairness (a decreasing measure) is not proved; the stuck detector covers it on traces.", "§7 C09"),
  "C10": ("Lean theorems: delivered ++ remainder = 0..len for every program and schedule; remainder empty after skip and always in range.", "§7 C10"),
  "C11": ("Lean theorems: reported length = what continuations can deliver, never increases, zero is definitive (known size); wrapper: completed ⇒ 0, exact hint ⇒ len − reserved, monotone.", "§7 C11"),
  "C12": ("Lean theorems: fold_combine for any commutative monoid over any partition that is a permutation of the source; loops visit the positions of their pulls with the right index; a loop returns only at the end; all positions visited once.", "§7 C12"),
@@ -21,7 +21,7 @@ TEXT = {
  "C15": ("Lean theorems: allocation ledger of vec/array/wrapper life-cycles is balanced for every length and progress point, and under repetition. Tie: counting allocator, live = 0 on every case.", "§7 C15"),
  "C16": ("Lean theorems over the whole 64-bit domain: chunk ranges are the mathematical ones, range values never overflow, inverted ranges are empty, chunk(0) is a no-op, chunk size 0 panics; open finding H1 (counter wrap) as a kernel-checked witness with the partial theorem.", "§7 C16"),
  "C17": ("Lean theorems: every arithmetic expression of the fixed source stays inside usize on the whole domain (so overflow checks cannot fire); tie: debug and release harness binaries produce identical traces on every case, both equal to the model.", "§7 C17"),
- "C18": ("Lean theorems: safety invariants and no-duplicate hold for panicking wrapped iterators under every schedule; open finding D13 (hang) as a kernel-checked witness.", "§7 C18"),
+ "C18": ("Lean theorems: safety invariants and no-duplicate hold for panicking wrapped iterators under every schedule; no hang after a panic (deadlock freedom with the unwind guard of fix 3804907, DeadC invariant), witness schedule of the former finding D13 now terminates.", "§7 C18"),
  "C19": ("Lean theorems: frame (an access on one slot leaves the others unchanged; outputs depend on the own counter only), every slot is its own cursor under every schedule, clone starts at the loaded counter.", "§7 C19"),
 }
 NOTE = ("Trusted: Lean 4.33 kernel (axioms ⊆ propext, Classical.choice, Quot.sound; audited per run by #print axioms); the hand-written model "
